@@ -1159,6 +1159,8 @@ def histories(draw, weights=None, max_ops=60, min_ops=4, spec_kw=None,
         'bumped': bumped,
         'workers': draw(st.sampled_from([0, 1, 2, 3, 3, 4, 4])),
         'ops': ops,
+        # size of the pieces in which worker messages reach the farm
+        'seg': draw(st.sampled_from([0, 0, 0, 1, 3, 5, 7, 64, 1448])),
     }
     if kw.get('events'):
         case['timers'] = True
@@ -1188,10 +1190,17 @@ def run_history(case, on_event, at_end=None, pid=None, setup=None):
         from . import store as storemod
 
         storemod.use_real_digest_binaries(False)
-    sim = Sim(case['spec'], case['targets'], case.get('bumped', ()),
-              auto_workers=case.get('workers', 0),
-              timers=bool(case.get('timers')),
-              real_store=bool(case.get('real_store')))
+    rig.SEGMENT[0] = case.get('seg', 0)
+    try:
+        sim = Sim(case['spec'], case['targets'], case.get('bumped', ()),
+                  auto_workers=case.get('workers', 0),
+                  timers=bool(case.get('timers')),
+                  real_store=bool(case.get('real_store')))
+    except BaseException:
+        rig.SEGMENT[0] = 0
+        raise
+    if case.get('seg'):
+        out.label('worker-messages-arrive-in-pieces')
     try:
         if setup is not None:
             setup(sim)
@@ -1218,5 +1227,6 @@ def run_history(case, on_event, at_end=None, pid=None, setup=None):
         if at_end is not None and not out.failures:
             at_end(sim, out)
     finally:
+        rig.SEGMENT[0] = 0
         sim.close()
     return out
